@@ -25,6 +25,7 @@ place; work ONLY there, never touch /repo or /verif and do not read /verif). Int
 To run code against your worktree use:  cd %(wt)s && PYTHONPATH=%(wt)s /venv/bin/python your_script.py
 Stock test suite (must still pass WITH your change, run it at least twice because some defects are flaky):
   cd %(wt)s && PYTHONPATH=%(wt)s /venv/bin/python -m pytest -q -p no:cacheprovider --timeout=900 --deselect toasty/tests/test_avm.py::TestAvm::test_check_cli_good --deselect toasty/tests/test_study.py::TestStudy::test_avm --deselect toasty/tests/test_study.py::TestStudy::test_avm_from
+Never use `git stash` (the stash is shared by every worktree of the repository and other agents are working in theirs): to switch between the clean and the changed tree use `git diff > file`, `git checkout -- .`, `git apply file`.
 There is no network. Cython is not installed: do not edit toasty/_libtoasty.pyx. Only edit files under toasty/ (not the tests).
 
 THE PROPERTY (%(id)s): %(title)s
